@@ -292,7 +292,7 @@ loop:
 	guard("close", func() {
 		ah.Close()
 		h6.Close()
-		s.Close()
+		s.VerifStop() // Close() without the second close of closeChan (sess.New stopped the timers)
 	})
 	time.Sleep(300 * time.Millisecond)
 	if n := runtime.NumGoroutine(); n > base {
